@@ -24,11 +24,20 @@ var verifC10Progs = [...][]string{
 	{`param p`, `mk := func() { c := 0; return func() { c += p; return c } }`, `c1 := mk()`, `c1()`, `c2 := mk()`, `[c1(), c2(), c1()]`},
 	{`param p`, `x, y := [p, 2]`, `x, y = [y, x]`, `m := {k: x}`, `m.k += y`, `[x, y, m]`},
 	{`param p`, `out("one")`, `s := "a"`, `out(s + "b")`, `s += string(p)`, `out(s)`, `s`},
+	// 12-15: several modules first imported by different fragments, modules
+	// importing modules, a Go module with mutable attributes, imports inside
+	// functions called by later fragments; constants that differ only in sign of zero / type
+	{`param p`, `m := import("a")`, `m.inc()`, `b := import("b")`, `b.bump()`, `n := import("a")`, `[m.get(), n.get(), n == m, b.peek(), import("b") == b]`},
+	{`param p`, `f := func() { return import("a") }`, `f().inc()`, `g := import("gm")`, `g.box.v = p`, `h := func() { return [import("gm").box.v, import("a").get()] }`, `[h(), g.box.v, f().inc()]`},
+	{`param p`, `a := -0.0`, `b := 0.0`, `c := 0`, `d := 1.0`, `e := 1`, `[string(a), string(b), c, d, e, p]`},
+	{`param p`, `g := import("gm")`, `g.box.v = 1`, `b := import("b")`, `b.bump()`, `g2 := import("gm")`, `g2.box.v += p`, `[g.box.v, g2 == g, b.peek()]`},
 }
 
 func verifC10Modules() *ModuleMap {
 	mm := NewModuleMap()
 	mm.AddSourceModule("a", []byte(`n := 0; return {inc: func() { n++; return n }, get: func() { return n }}`))
+	mm.AddSourceModule("b", []byte(`a := import("a"); k := 0; return {bump: func() { k++; a.inc(); return k }, peek: func() { return [k, a.get()] }}`))
+	mm.AddBuiltinModule("gm", map[string]Object{"box": Map{"v": Int(0)}, "name": String("gm")})
 	return mm
 }
 
@@ -91,6 +100,9 @@ func VerifC10Fragments() {
 			o2 = batch.out.s
 		})
 		verifrt.AssertMsg(verifSameError(e1, e2), "fragment-same-error", strings.Join(frags, " | "))
+		// only program 6 is built to fail (for one value of p): everywhere else
+		// an error would silently end the comparison early
+		verifrt.AssertMsg(e2 == nil || verifrt.Param("prog") == 6, "fragment-evaluates", strings.Join(frags, " | "))
 		if e1 != nil || e2 != nil {
 			break // compared up to and including the first failing fragment
 		}
